@@ -28,40 +28,95 @@ LDgrams == << Dg(4,2,0), Dg(3,1,1), Dg(4,2,2) >>
 LRaw    == << Raw(8,0) >>
 
 
-Lay_ss_legacy_req_framed == [fields |-> LSsLegacy, hs |-> 2, datagram |-> FALSE, exempt |-> 0, adapter |-> "framed"]
-Lay_ss_legacy_req_ws == [fields |-> LSsLegacy, hs |-> 2, datagram |-> FALSE, exempt |-> 0, adapter |-> "ws"]
-Lay_ss_legacy_resp_framed == [fields |-> LSsLegacy, hs |-> -1, datagram |-> FALSE, exempt |-> 0, adapter |-> "framed"]
-Lay_ss_legacy_resp_ws == [fields |-> LSsLegacy, hs |-> -1, datagram |-> FALSE, exempt |-> 0, adapter |-> "ws"]
-Lay_ss2022_req_framed == [fields |-> LSs2022Req, hs |-> 0, datagram |-> FALSE, exempt |-> 6, adapter |-> "framed"]
-Lay_ss2022_req_ws == [fields |-> LSs2022Req, hs |-> 0, datagram |-> FALSE, exempt |-> 6, adapter |-> "ws"]
-Lay_ss2022_req_eih_framed == [fields |-> LSs2022ReqEih, hs |-> 0, datagram |-> FALSE, exempt |-> 8, adapter |-> "framed"]
-Lay_ss2022_req_eih_ws == [fields |-> LSs2022ReqEih, hs |-> 0, datagram |-> FALSE, exempt |-> 8, adapter |-> "ws"]
-Lay_ss2022_resp_framed == [fields |-> LSs2022Resp, hs |-> -1, datagram |-> FALSE, exempt |-> 6, adapter |-> "framed"]
-Lay_ss2022_resp_ws == [fields |-> LSs2022Resp, hs |-> -1, datagram |-> FALSE, exempt |-> 6, adapter |-> "ws"]
-Lay_vmess_req_framed == [fields |-> LVmessReq, hs |-> 2, datagram |-> FALSE, exempt |-> 0, adapter |-> "framed"]
-Lay_vmess_req_ws == [fields |-> LVmessReq, hs |-> 2, datagram |-> FALSE, exempt |-> 0, adapter |-> "ws"]
-Lay_vmess_resp_framed == [fields |-> LVmessResp, hs |-> -1, datagram |-> FALSE, exempt |-> 0, adapter |-> "framed"]
-Lay_vmess_resp_ws == [fields |-> LVmessResp, hs |-> -1, datagram |-> FALSE, exempt |-> 0, adapter |-> "ws"]
-Lay_vmess_udp_req_framed == [fields |-> LVmessUdpReq, hs |-> -1, datagram |-> TRUE, exempt |-> 0, adapter |-> "framed"]
-Lay_vmess_udp_req_ws == [fields |-> LVmessUdpReq, hs |-> -1, datagram |-> TRUE, exempt |-> 0, adapter |-> "ws"]
-Lay_vmess_udp_resp_framed == [fields |-> LVmessUdpResp, hs |-> -1, datagram |-> TRUE, exempt |-> 0, adapter |-> "framed"]
-Lay_vmess_udp_resp_ws == [fields |-> LVmessUdpResp, hs |-> -1, datagram |-> TRUE, exempt |-> 0, adapter |-> "ws"]
-Lay_trojan_req_framed == [fields |-> LTrojanReq, hs |-> 0, datagram |-> FALSE, exempt |-> 0, adapter |-> "framed"]
-Lay_trojan_req_ws == [fields |-> LTrojanReq, hs |-> 0, datagram |-> FALSE, exempt |-> 0, adapter |-> "ws"]
-Lay_trojan_udp_req_framed == [fields |-> LTrojanUdpReq, hs |-> -1, datagram |-> TRUE, exempt |-> 0, adapter |-> "framed"]
-Lay_trojan_udp_req_ws == [fields |-> LTrojanUdpReq, hs |-> -1, datagram |-> TRUE, exempt |-> 0, adapter |-> "ws"]
-Lay_dgrams_framed == [fields |-> LDgrams, hs |-> -1, datagram |-> TRUE, exempt |-> 0, adapter |-> "framed"]
-Lay_dgrams_ws == [fields |-> LDgrams, hs |-> -1, datagram |-> TRUE, exempt |-> 0, adapter |-> "ws"]
-Lay_raw_framed == [fields |-> LRaw, hs |-> -1, datagram |-> FALSE, exempt |-> 0, adapter |-> "framed"]
-Lay_raw_ws == [fields |-> LRaw, hs |-> -1, datagram |-> FALSE, exempt |-> 0, adapter |-> "ws"]
+\* every place an attacker may start tampering
+WithTamper(L) == {[L EXCEPT !.badFrom = b] : b \in 1..(Len(L.fields) + 1)}
+Lay_ss_legacy_req_framed == [fields |-> LSsLegacy, hs |-> 2, datagram |-> FALSE, exempt |-> 0, adapter |-> "framed", enc |-> TRUE, badFrom |-> 0, stop0 |-> FALSE]
+Lay_ss_legacy_req_framed_S == {Lay_ss_legacy_req_framed}
+Lay_ss_legacy_req_framed_T == WithTamper(Lay_ss_legacy_req_framed)
+Lay_ss_legacy_req_ws == [fields |-> LSsLegacy, hs |-> 2, datagram |-> FALSE, exempt |-> 0, adapter |-> "ws", enc |-> TRUE, badFrom |-> 0, stop0 |-> FALSE]
+Lay_ss_legacy_req_ws_S == {Lay_ss_legacy_req_ws}
+Lay_ss_legacy_req_ws_T == WithTamper(Lay_ss_legacy_req_ws)
+Lay_ss_legacy_resp_framed == [fields |-> LSsLegacy, hs |-> -1, datagram |-> FALSE, exempt |-> 0, adapter |-> "framed", enc |-> TRUE, badFrom |-> 0, stop0 |-> FALSE]
+Lay_ss_legacy_resp_framed_S == {Lay_ss_legacy_resp_framed}
+Lay_ss_legacy_resp_framed_T == WithTamper(Lay_ss_legacy_resp_framed)
+Lay_ss_legacy_resp_ws == [fields |-> LSsLegacy, hs |-> -1, datagram |-> FALSE, exempt |-> 0, adapter |-> "ws", enc |-> TRUE, badFrom |-> 0, stop0 |-> FALSE]
+Lay_ss_legacy_resp_ws_S == {Lay_ss_legacy_resp_ws}
+Lay_ss_legacy_resp_ws_T == WithTamper(Lay_ss_legacy_resp_ws)
+Lay_ss2022_req_framed == [fields |-> LSs2022Req, hs |-> 0, datagram |-> FALSE, exempt |-> 6, adapter |-> "framed", enc |-> TRUE, badFrom |-> 0, stop0 |-> TRUE]
+Lay_ss2022_req_framed_S == {Lay_ss2022_req_framed}
+Lay_ss2022_req_framed_T == WithTamper(Lay_ss2022_req_framed)
+Lay_ss2022_req_ws == [fields |-> LSs2022Req, hs |-> 0, datagram |-> FALSE, exempt |-> 6, adapter |-> "ws", enc |-> TRUE, badFrom |-> 0, stop0 |-> TRUE]
+Lay_ss2022_req_ws_S == {Lay_ss2022_req_ws}
+Lay_ss2022_req_ws_T == WithTamper(Lay_ss2022_req_ws)
+Lay_ss2022_req_eih_framed == [fields |-> LSs2022ReqEih, hs |-> 0, datagram |-> FALSE, exempt |-> 8, adapter |-> "framed", enc |-> TRUE, badFrom |-> 0, stop0 |-> TRUE]
+Lay_ss2022_req_eih_framed_S == {Lay_ss2022_req_eih_framed}
+Lay_ss2022_req_eih_framed_T == WithTamper(Lay_ss2022_req_eih_framed)
+Lay_ss2022_req_eih_ws == [fields |-> LSs2022ReqEih, hs |-> 0, datagram |-> FALSE, exempt |-> 8, adapter |-> "ws", enc |-> TRUE, badFrom |-> 0, stop0 |-> TRUE]
+Lay_ss2022_req_eih_ws_S == {Lay_ss2022_req_eih_ws}
+Lay_ss2022_req_eih_ws_T == WithTamper(Lay_ss2022_req_eih_ws)
+Lay_ss2022_resp_framed == [fields |-> LSs2022Resp, hs |-> -1, datagram |-> FALSE, exempt |-> 6, adapter |-> "framed", enc |-> TRUE, badFrom |-> 0, stop0 |-> TRUE]
+Lay_ss2022_resp_framed_S == {Lay_ss2022_resp_framed}
+Lay_ss2022_resp_framed_T == WithTamper(Lay_ss2022_resp_framed)
+Lay_ss2022_resp_ws == [fields |-> LSs2022Resp, hs |-> -1, datagram |-> FALSE, exempt |-> 6, adapter |-> "ws", enc |-> TRUE, badFrom |-> 0, stop0 |-> TRUE]
+Lay_ss2022_resp_ws_S == {Lay_ss2022_resp_ws}
+Lay_ss2022_resp_ws_T == WithTamper(Lay_ss2022_resp_ws)
+Lay_vmess_req_framed == [fields |-> LVmessReq, hs |-> 2, datagram |-> FALSE, exempt |-> 0, adapter |-> "framed", enc |-> TRUE, badFrom |-> 0, stop0 |-> FALSE]
+Lay_vmess_req_framed_S == {Lay_vmess_req_framed}
+Lay_vmess_req_framed_T == WithTamper(Lay_vmess_req_framed)
+Lay_vmess_req_ws == [fields |-> LVmessReq, hs |-> 2, datagram |-> FALSE, exempt |-> 0, adapter |-> "ws", enc |-> TRUE, badFrom |-> 0, stop0 |-> FALSE]
+Lay_vmess_req_ws_S == {Lay_vmess_req_ws}
+Lay_vmess_req_ws_T == WithTamper(Lay_vmess_req_ws)
+Lay_vmess_resp_framed == [fields |-> LVmessResp, hs |-> -1, datagram |-> FALSE, exempt |-> 0, adapter |-> "framed", enc |-> TRUE, badFrom |-> 0, stop0 |-> FALSE]
+Lay_vmess_resp_framed_S == {Lay_vmess_resp_framed}
+Lay_vmess_resp_framed_T == WithTamper(Lay_vmess_resp_framed)
+Lay_vmess_resp_ws == [fields |-> LVmessResp, hs |-> -1, datagram |-> FALSE, exempt |-> 0, adapter |-> "ws", enc |-> TRUE, badFrom |-> 0, stop0 |-> FALSE]
+Lay_vmess_resp_ws_S == {Lay_vmess_resp_ws}
+Lay_vmess_resp_ws_T == WithTamper(Lay_vmess_resp_ws)
+Lay_vmess_udp_req_framed == [fields |-> LVmessUdpReq, hs |-> -1, datagram |-> TRUE, exempt |-> 0, adapter |-> "framed", enc |-> TRUE, badFrom |-> 0, stop0 |-> FALSE]
+Lay_vmess_udp_req_framed_S == {Lay_vmess_udp_req_framed}
+Lay_vmess_udp_req_framed_T == WithTamper(Lay_vmess_udp_req_framed)
+Lay_vmess_udp_req_ws == [fields |-> LVmessUdpReq, hs |-> -1, datagram |-> TRUE, exempt |-> 0, adapter |-> "ws", enc |-> TRUE, badFrom |-> 0, stop0 |-> FALSE]
+Lay_vmess_udp_req_ws_S == {Lay_vmess_udp_req_ws}
+Lay_vmess_udp_req_ws_T == WithTamper(Lay_vmess_udp_req_ws)
+Lay_vmess_udp_resp_framed == [fields |-> LVmessUdpResp, hs |-> -1, datagram |-> TRUE, exempt |-> 0, adapter |-> "framed", enc |-> TRUE, badFrom |-> 0, stop0 |-> FALSE]
+Lay_vmess_udp_resp_framed_S == {Lay_vmess_udp_resp_framed}
+Lay_vmess_udp_resp_framed_T == WithTamper(Lay_vmess_udp_resp_framed)
+Lay_vmess_udp_resp_ws == [fields |-> LVmessUdpResp, hs |-> -1, datagram |-> TRUE, exempt |-> 0, adapter |-> "ws", enc |-> TRUE, badFrom |-> 0, stop0 |-> FALSE]
+Lay_vmess_udp_resp_ws_S == {Lay_vmess_udp_resp_ws}
+Lay_vmess_udp_resp_ws_T == WithTamper(Lay_vmess_udp_resp_ws)
+Lay_trojan_req_framed == [fields |-> LTrojanReq, hs |-> 0, datagram |-> FALSE, exempt |-> 0, adapter |-> "framed", enc |-> FALSE, badFrom |-> 0, stop0 |-> FALSE]
+Lay_trojan_req_framed_S == {Lay_trojan_req_framed}
+Lay_trojan_req_framed_T == WithTamper(Lay_trojan_req_framed)
+Lay_trojan_req_ws == [fields |-> LTrojanReq, hs |-> 0, datagram |-> FALSE, exempt |-> 0, adapter |-> "ws", enc |-> FALSE, badFrom |-> 0, stop0 |-> FALSE]
+Lay_trojan_req_ws_S == {Lay_trojan_req_ws}
+Lay_trojan_req_ws_T == WithTamper(Lay_trojan_req_ws)
+Lay_trojan_udp_req_framed == [fields |-> LTrojanUdpReq, hs |-> -1, datagram |-> TRUE, exempt |-> 0, adapter |-> "framed", enc |-> FALSE, badFrom |-> 0, stop0 |-> FALSE]
+Lay_trojan_udp_req_framed_S == {Lay_trojan_udp_req_framed}
+Lay_trojan_udp_req_framed_T == WithTamper(Lay_trojan_udp_req_framed)
+Lay_trojan_udp_req_ws == [fields |-> LTrojanUdpReq, hs |-> -1, datagram |-> TRUE, exempt |-> 0, adapter |-> "ws", enc |-> FALSE, badFrom |-> 0, stop0 |-> FALSE]
+Lay_trojan_udp_req_ws_S == {Lay_trojan_udp_req_ws}
+Lay_trojan_udp_req_ws_T == WithTamper(Lay_trojan_udp_req_ws)
+Lay_dgrams_framed == [fields |-> LDgrams, hs |-> -1, datagram |-> TRUE, exempt |-> 0, adapter |-> "framed", enc |-> FALSE, badFrom |-> 0, stop0 |-> FALSE]
+Lay_dgrams_framed_S == {Lay_dgrams_framed}
+Lay_dgrams_framed_T == WithTamper(Lay_dgrams_framed)
+Lay_dgrams_ws == [fields |-> LDgrams, hs |-> -1, datagram |-> TRUE, exempt |-> 0, adapter |-> "ws", enc |-> FALSE, badFrom |-> 0, stop0 |-> FALSE]
+Lay_dgrams_ws_S == {Lay_dgrams_ws}
+Lay_dgrams_ws_T == WithTamper(Lay_dgrams_ws)
+Lay_raw_framed == [fields |-> LRaw, hs |-> -1, datagram |-> FALSE, exempt |-> 0, adapter |-> "framed", enc |-> FALSE, badFrom |-> 0, stop0 |-> FALSE]
+Lay_raw_framed_S == {Lay_raw_framed}
+Lay_raw_framed_T == WithTamper(Lay_raw_framed)
+Lay_raw_ws == [fields |-> LRaw, hs |-> -1, datagram |-> FALSE, exempt |-> 0, adapter |-> "ws", enc |-> FALSE, badFrom |-> 0, stop0 |-> FALSE]
+Lay_raw_ws_S == {Lay_raw_ws}
+Lay_raw_ws_T == WithTamper(Lay_raw_ws)
 
-Cuts == [i \in 1..Len(hist) |-> LET RECURSIVE S(_) S(j) == IF j = 0 THEN 0 ELSE hist[j] + S(j - 1) IN S(i)]
+Cuts == LET h == SelectSeq(hist, LAMBDA x : x > 0) IN [i \in 1..Len(h) |-> LET RECURSIVE S(_) S(j) == IF j = 0 THEN 0 ELSE h[j] + S(j - 1) IN S(i)]
+AtEnd == (arrived = Total /\ ~readable /\ ~Dead /\ BadFrom = 0) \/ (Dead /\ ~readable) \/ (BadFrom > 0 /\ arrived = Total /\ ~readable)
 Export(name) ==
-  (arrived = Total /\ ~readable /\ ~Dead) =>
+  AtEnd =>
      PrintT("REPLAY " \o ToJson([layout |-> name, adapter |-> Adapter,
                                  fields |-> [i \in 1..NF |-> [name |-> Fields[i].name, len |-> Fields[i].len]],
-                                 cuts |-> Cuts,
-                                 expect |-> [plain |-> plain, items |-> items, connect |-> connect, failed |-> failed]]))
+                                 cuts |-> Cuts, eof |-> eof, badFrom |-> BadFrom,
+                                 expect |-> [plain |-> plain, items |-> items, connect |-> connect, failed |-> failed, ended |-> ended]]))
 Export_ss_legacy_req == Export("ss-legacy-req")
 Export_ss_legacy_resp == Export("ss-legacy-resp")
 Export_ss2022_req == Export("ss2022-req")
@@ -76,5 +131,5 @@ Export_trojan_udp_req == Export("trojan-udp-req")
 Export_dgrams == Export("dgrams")
 Export_raw == Export("raw")
 ExportInv == Export("x")
-NoHist == <<lay, arrived, buf, nf, rawTaken, readable, plain, items, connect, lost, failed, panicked, firstRead>>
+NoHist == <<lay, arrived, buf, nf, rawTaken, readable, plain, items, connect, lost, failed, panicked, eof, ended, firstRead>>
 =============================================================================
